@@ -48,6 +48,13 @@ func (e *Exec) invoke(st *State, fr *Frame, cc *ssa.CallCommon, fv *Value, args 
 			callee = f
 		}
 	}
+	if callee == nil && len(fv.L) == 1 && ctorOf(fv.L[0]) == "mkloc" {
+		// a closure that went through a variable: recover it from its object
+		if cl, ok := closureByObj[fv.L[0].Args[0]]; ok {
+			callee = cl.Fn
+			fv = cl
+		}
+	}
 	if callee == nil {
 		// dynamic call of an unknown function value
 		si, _ := cc.Value.(ssa.Instruction)
@@ -154,7 +161,7 @@ func (e *Exec) invokeMethod(st *State, fr *Frame, cc *ssa.CallCommon, recv *Valu
 		k(st, []*Value{{T: types.Typ[types.String], L: []*Term{UF("method_"+name, SStr, recv.One())}}})
 		return
 	}
-	e.unknownCall(st, fr, "interface method "+rt.String()+"."+name, cc.Signature(), append([]*Value{recv}, args...), k)
+	e.unknownCall(st, fr, "interface method "+rt.String()+"."+name+" (in "+fnName(fr.fn)+")", cc.Signature(), append([]*Value{recv}, args...), k)
 }
 
 // ---- builtins
